@@ -236,9 +236,18 @@ impl ArrivalBound for Curve {
     fn number_arrivals(&self, delta: Duration) -> usize {
         if delta.is_non_zero() {
             // first, resolve long delta by super-additivity of arrival curves
-            let prefix = delta / self.largest_known_distance();
+            let mut prefix = delta / self.largest_known_distance();
+            let mut tail = delta % self.largest_known_distance();
+            if tail.is_zero() {
+                // An interval that is an exact multiple of the largest known
+                // distance ends with one interval of exactly that length, which
+                // is resolved by lookup like any other tail (the delta-min
+                // vector may end in a plateau, in which case such an interval
+                // holds fewer jobs than the whole prefix describes).
+                prefix -= 1;
+                tail = self.largest_known_distance();
+            }
             let prefix_jobs = prefix as usize * self.jobs_in_largest_known_distance();
-            let tail = delta % self.largest_known_distance();
             if tail > self.min_job_separation() {
                 prefix_jobs + self.lookup_arrivals(tail) as usize
             } else {
